@@ -123,7 +123,7 @@ auto gemm_n(Context&& ctxt, typename It2DA::element alpha, It2DA a_first, Size a
 
 	if(a_count == 0) { return c_first; }
 	if      (a_first. stride()==1 && b_first. stride()==1 && (*c_first).stride()==1){
-	                            {CTXT->gemm('C', 'C', a_count, (*c_first).size(), (*a_first).size(), &alpha, underlying(base(b_first)), (*b_first).stride(), underlying(base(a_first)), (*a_first).stride(), &beta, base(c_first), c_first. stride());}
+	                            {CTXT->gemm('C', 'C', (*c_first).size(), a_count, (*a_first).size(), &alpha, underlying(base(b_first)), legal_ld((*b_first).stride(), (*a_first).size()), underlying(base(a_first)), legal_ld((*a_first).stride(), a_count), &beta, base(c_first), legal_ld(c_first.stride(), (*c_first).size()));}
 	} else                      {throw std::logic_error{"not BLAS-implemented"};}
 	return c_first + a_count;
 }
